@@ -6,10 +6,10 @@ import "verif/mon"
 
 // Child describes one child process of a check.
 type Child struct {
-	Flavour    string            // plain | race | noadx
-	NCPU       int               // CPUs the child is pinned to with taskset (runtime.NumCPU() follows it)
-	GOMAXPROCS int               // 0 = default (= NCPU)
-	Shard      int               // case k runs in shard k % NShards
+	Flavour    string // plain | race | noadx
+	NCPU       int    // CPUs the child is pinned to with taskset (runtime.NumCPU() follows it)
+	GOMAXPROCS int    // 0 = default (= NCPU)
+	Shard      int    // case k runs in shard k % NShards
 	NShards    int
 	Params     map[string]string // check-specific parameters (e.g. sched mode)
 	TimeoutS   int               // watchdog; 0 = default
